@@ -90,6 +90,9 @@ func c19CheckBits(c *Ctx, b uint32) {
 	c.R.OracleChecked++
 	if got != want {
 		var ops []string
+		if c19Wired {
+			ops = append(ops, "wire")
+		}
 		for _, r := range c19Recent {
 			ops = append(ops, fmt.Sprintf("bits %d", r))
 		}
@@ -126,6 +129,22 @@ func c19CheckLog2(c *Ctx, n uint32) {
 		c.R.Fail(lib.Failure{Case: fmt.Sprintf("log2 %d", n), Ops: []string{fmt.Sprintf("log2 %d", n)}, What: "FastLog2Floor differs from floor(log2 n)",
 			Expected: want, Observed: got, Signature: "c19-log2"})
 	}
+}
+
+// c19Wired: the services have been constructed in this process (ops of a failure then start with "wire")
+var c19Wired bool
+
+func c19Wire() error {
+	if c19Wired {
+		return nil
+	}
+	st, err := lib.NewStack(lib.StackOpts{File: lib.TempDB("c19-wired.db"), NoEngine: true})
+	if err != nil {
+		return err
+	}
+	st.Close()
+	c19Wired = true
+	return nil
 }
 
 func runC19(c *Ctx) error {
@@ -166,6 +185,12 @@ func runC19(c *Ctx) error {
 		}
 		for _, op := range ops {
 			var k uint32
+			if op == "wire" {
+				if err := c19Wire(); err != nil {
+					return err
+				}
+				continue
+			}
 			if _, err := fmt.Sscanf(op, "bits %d", &k); err == nil {
 				bitsIn = append(bitsIn, k)
 			} else if _, err := fmt.Sscanf(op, "log2 %d", &k); err == nil {
@@ -234,6 +259,23 @@ func runC19(c *Ctx) error {
 	}
 	c.R.TracesValidated = len(lines)
 	c.R.ModelOps = l.Ops
+	if c.Replay == "" {
+		// the same lattice once more in a WIRED process: the arithmetic is a function of its argument — constructing the
+		// services as cmd/main.go does (repositories, chain service with the network parameters, …) may not change it
+		if err := c19Wire(); err != nil {
+			return err
+		}
+		c19Recent, c19Held = nil, nil
+		for i := 0; i < nb && i < 256*2*29+78; i++ {
+			var k uint32
+			fmt.Sscanf(lines[i], "bits %d", &k)
+			c19CheckBits(c, k)
+		}
+		for _, k := range []uint32{0x1d010000, 0x1d7fffff, 0x1e00ffff, 0x2100ffff, 0x207fffff, 0x20800000, 0x1d00ffff, 0x1d00fffe, 0x1d010001} { // around the networks' proof-of-work limits
+			c19CheckBits(c, k)
+		}
+		c.R.Count("bits re-evaluated after the services were constructed (wired process)", 256*2*29+78+9)
+	}
 	if c.Thorough && c.Replay == "" {
 		// complete enumeration of both 32-bit domains on the implementation against the reference
 		var wg sync.WaitGroup
